@@ -237,7 +237,26 @@ func (vc *FuncVC) prelude() string {
 		}
 		b.WriteString("))))\n")
 	}
+	// axioms of the logic functions that were used (label = logic function name)
+	for changed := true; changed; {
+		changed = false
+		for _, ax := range vc.P.CS.Axioms {
+			if vc.axiomDone[ax] || !vc.logicUsed[ax.Name] {
+				continue
+			}
+			vc.axiomDone[ax] = true
+			changed = true
+			env := vc.newEnv(vc.entryState, vc.entryState)
+			env.callee = true
+			t := vc.evalBool(env, ax)
+			vc.axiomText = append(vc.axiomText, "(assert "+t.S+") ; axiom "+ax.Src)
+		}
+	}
 	for _, d := range vc.preDecls {
+		b.WriteString(d)
+		b.WriteByte('\n')
+	}
+	for _, d := range vc.axiomText {
 		b.WriteString(d)
 		b.WriteByte('\n')
 	}
